@@ -60,7 +60,7 @@ FORCE_CE = ['-include', os.path.join(HARNESS, 'force_ce.h')]   # harness/force_c
 # gcc-O0: umbrella header, GNU dialect, -ftrapv (signed overflow aborts in this uninstrumented build for every monitor's inputs),
 # _GLIBCXX_ASSERTIONS (std::array bounds)
 QUICK_CFGS = [cfg('g++', '-O0', 'gnu++17', extra=['-DVERIF_UMBRELLA=1', '-ftrapv', '-D_GLIBCXX_ASSERTIONS'], tag='gcc-O0-gnu++17-umbrella-trapv'), cfg('g++', '-O2'), cfg('clang++', '-O2', 'gnu++17', extra=['-DNDEBUG', '-funsigned-char', '-fno-math-errno'], tag='clang-O2-gnu++17-ndebug-uchar-nomatherrno'),
-              cfg('g++', '-O2', 'c++20', extra=FORCE_CE + ['-march=native'], tag='gcc-O2-c++20-ce-native')]
+              cfg('g++', '-O2', 'c++2b', extra=FORCE_CE + ['-march=native'], tag='gcc-O2-c++2b-ce-native')]
 # the abacus configuration is also the GNU-dialect, -march=native (LZCNT/BMI/AVX2 builtins selected by feature macros) one
 ABACUS_QUICK = [cfg('g++', '-O2', 'gnu++17', abacus=True, extra=['-march=native'], tag='gcc-O2-gnu++17-abacus-native')]
 
